@@ -144,3 +144,65 @@ func init() {
 		Outside: []string{"arguments longer than 2 bytes other than the keyword list", "pipelines longer than 3 requests"},
 	})
 }
+
+func init() {
+	register(&Prop{
+		ID: "C04",
+		Jobs: func(rc *RunCtx) []JobSpec {
+			var js []JobSpec
+			names := CommandNames(rc.Ld)
+			rc.Extra["commands"] = names
+			ma, ml := "2", "2"
+			if rc.Tier == "thorough" {
+				ma, ml = "3", "3"
+			}
+			for _, c := range names {
+				js = append(js, JobSpec{Set: "redis", Fn: "HarnessC04Reply", Params: p("cmd", c, "maxargs", ma, "maxlen", ml), Split: 3})
+			}
+			js = append(js, JobSpec{Set: "redis", Fn: "HarnessC04Reply", Params: p("cmd", "?", "namelen", "4", "maxargs", "1", "maxlen", ml), Split: 3})
+			js = append(js, JobSpec{Set: "redis", Fn: "HarnessC04Raw", Params: p()})
+			js = append(js, JobSpec{Set: "server", Fn: "HarnessC04Store", Params: p("maxlen", ml)})
+			return js
+		},
+		RequiredCovers: map[string][]string{"HarnessC04Reply": {"end", "error-reply", "quit"}, "HarnessC04Raw": {"end", "both-answered"}, "HarnessC04Store": {"end", "get", "hget"}},
+		Bounds: func(tier string) map[string]interface{} {
+			n := 2
+			if tier == "thorough" {
+				n = 3
+			}
+			return map[string]interface{}{"request": "[name args...] PING; every registered command and arbitrary 0..4-byte names", "args": n, "arg_bytes": "0.." + string(rune('0'+n)) + " bytes, all 256 values (CR, LF, type bytes included)", "handler_results": "14 shapes: all five message types with arbitrary payload bytes, null, arrays (odd, nested, absent element), nil message, error with arbitrary text, message+error", "non_array_requests": "11 shapes: every top-level type, null/empty/nested/absent first element", "example_store": "GET/HGET of stored values with arbitrary bytes"}
+		},
+		Assumptions: append(append([]string{"the oracle is the harness's own strict RESP2 reader over the raw bytes written to the connection"}, connLoopAssumptions...), commonAssumptions...),
+		Outside:     []string{"payloads longer than the bound", "handlers that panic"},
+	})
+	register(&Prop{
+		ID: "C07",
+		Jobs: func(rc *RunCtx) []JobSpec {
+			var js []JobSpec
+			names := CommandNames(rc.Ld)
+			ma := "3"
+			if rc.Tier == "thorough" {
+				ma = "4"
+			}
+			for _, c := range names {
+				js = append(js, JobSpec{Set: "redis", Fn: "HarnessC04Reply", Params: p("cmd", c, "maxargs", ma, "maxlen", "1", "boundary", "1"), Split: 4})
+			}
+			js = append(js, JobSpec{Set: "redis", Fn: "HarnessC04Raw", Params: p()})
+			js = append(js, JobSpec{Set: "redis", Fn: "HarnessC07Stream", Params: p("L", map[string]string{"quick": "6", "thorough": "8"}[rc.Tier]), Split: 5})
+			for _, c := range names {
+				js = append(js, JobSpec{Set: "server", Fn: "HarnessC07Store", Params: p("cmd", c), Split: 4})
+			}
+			return js
+		},
+		UnwindIsFinding: true,
+		RequiredCovers:  map[string][]string{"HarnessC04Reply": {"end"}, "HarnessC07Stream": {"end"}, "HarnessC07Store": {"end"}},
+		Bounds: func(tier string) map[string]interface{} {
+			return map[string]interface{}{"framework": "every registered command x <=3 (thorough 4) arguments, each any 0..1-byte string or one of 15 boundary integer tokens (0, +-1, +-2^31, 2^63-2, 2^63-1, -2^63, out-of-range, fractional), handler returning any of 14 result shapes", "byte_streams": "every byte string up to 6 (thorough 8) bytes through the connection loop", "example_store": "every command against a symbolic pre-state (two keys, each absent/string/list/set/zset/hash of <=3 elements) with boundary and symbolic indices, counts and LIMITs"}
+		},
+		Assumptions: append(append([]string{
+			"reduction: an unrecovered panic, fatal error or attacker-sized allocation in the connection goroutine terminates the process and with it every client; cross-connection interference through shared state is C13/C14/C16",
+			"a loop whose trip count is an attacker-chosen integer beyond the unwinding bound is replayed natively under a wall-clock limit",
+		}, connLoopAssumptions...), commonAssumptions...),
+		Outside: []string{"witness-connection experiment over real sockets", "handlers that panic themselves"},
+	})
+}
